@@ -90,6 +90,7 @@ class ExprMixin:
         b = Box('set', items=[])
         for v in items:
             self.set_add(b, v)
+        b.display = list(items)       # the displayed elements {x, y}: lets unions become element insertions
         return b
 
     def eval_Dict(self, node, fr):
@@ -369,6 +370,18 @@ class ExprMixin:
             if ty is None:
                 # both concrete-item boxes of unknown type
                 ty = TSet(self.ty_of((a.items or b.items)[0]))
+            if isinstance(op, ast.BitOr):
+                # union with a displayed set {x, y}: element insertions (plain array stores)
+                for big, small in ((a, b), (b, a)):
+                    disp = getattr(small, 'display', None) if isinstance(small, Box) else None
+                    if disp is None and isinstance(small, Box) and small.kind == 'set' and small.term is None:
+                        disp = small.items
+                    if disp is not None and not (isinstance(big, Box) and getattr(big, 'display', None) is not None
+                                                 and big is b):
+                        t = self.term(big, ty)
+                        for x in disp:
+                            t = z3.SetAdd(t, self.term(x, ty.elem))
+                        return Box('set', term=t, elem=ty.elem)
             ta, tb = self.term(a, ty), self.term(b, ty)
             if isinstance(op, ast.BitOr):
                 return Box('set', term=z3.SetUnion(ta, tb), elem=ty.elem)
@@ -523,6 +536,9 @@ class ExprMixin:
                 return SV(sub(obj.term, z3.IntVal(lo), n - lo), obj.ty)
             if lo is None and isinstance(hi, int) and hi < 0:
                 return SV(sub(obj.term, z3.IntVal(0), n + hi), obj.ty)
+            if lo is None and isinstance(hi, SV) and z3.is_app(hi.term) and hi.term.decl().kind() == z3.Z3_OP_SEQ_LENGTH:
+                # s[:len(t)] : the bound is a length, hence non-negative: one extract
+                return SV(sub(obj.term, z3.IntVal(0), hi.term), obj.ty)
 
             def norm(x, default):
                 if x is None:
